@@ -49,6 +49,7 @@ PARAMS = [('inside', 'field'), ('straddle-top', 'two-knots'),
           ('long-digits', 'long-digits'), ('overshoot', 'field'),
           ('twelve-knots', 'eleven-knots')]
 CURVATURE = 2.36
+STALE = '# Recession curve simulation vector\n- 111.5\n# Rise curve simulation vector\n- 222.5\n'
 MANT = '1234567890123456789'
 EXPONENTS = [-300, -100, -10, -5, -4, -3, -2, -1, 0, 1, 2, 5, 15, 16, 17, 22,
              100, 300]
@@ -122,6 +123,10 @@ def spaces(tier):
 
 def run_to_text(argv_head, name):
     out = os.path.join(cs.tmpdir(), '%s-%d.txt' % (name, os.getpid()))
+    # the output file already exists (an earlier model run wrote it): the
+    # command must replace its content
+    with open(out, 'w') as f:
+        f.write(STALE)
     status, _, _, exc = cs.run_main(argv_head + ['-o', out])
     gc.collect()
     if status != 0:
@@ -131,6 +136,9 @@ def run_to_text(argv_head, name):
     with open(out, newline='') as f:
         text = f.read()
     os.unlink(out)
+    if STALE.strip() in text:
+        raise RuntimeError('%r left the previous content of its output file '
+                           'in place' % (argv_head[:3],))
     return text
 
 
